@@ -112,7 +112,8 @@ def translate():
     counted = "let symbol_count = ctx.symbols.node_count();" in loop_
     head = (r"while ctx\.pass_idx != MAX_ITERATIONS \{ " + (r"let symbol_count = ctx\.symbols\.node_count\(\); " if counted else "") +
             r"match ctx\.emit_tokens\(&ast\.main_file\(\)\.tokens\) \{ Ok\(\(\)\) => \(\), Err\(e\) => \{ errors = e\.with_code_map\(&ctx\.tree\.code_map\); \} \} "
-            r"ctx\.after_pass\(\)\.expect\(\"Could not finalize pass\"\); " +
+            # C06: an error of after_pass (a program that defines `segments.<name>.start` itself) is reported instead of `.expect(..)`
+            r"(?:ctx\.after_pass\(\)\.expect\(\"Could not finalize pass\"\); |if let Err\(e\) = ctx\.after_pass\(\) \{ errors\.extend\(e\); \} )" +
             (r"let symbols_added = ctx\.symbols\.node_count\(\) != symbol_count; " if counted else "") +
             r"if ctx\.segments\.is_empty\(\) \{ let seg_opts = SegmentOptions \{ initial_pc: options\.pc, target_address: options\.pc, \.\.Default::default\(\) \}; "
             r"ctx\.segments \.insert\(\"default\"\.into\(\), Segment::new\(seg_opts\)\); ctx\.current_segment = Some\(\"default\"\.into\(\)\); \} else \{ "
@@ -138,15 +139,17 @@ def translate():
         raise ShapeError("next_pass changed: %s" % np)
     ap = norm(between(cg, r"fn register_all_segment_symbols\(&mut self\) -> CoreResult<\(\)> \{", r"\n    \}", "register_all_segment_symbols"))
     need(r"let path: IdentifierPath = \"segments\"\.into\(\); .*for \(name, segment\) in &segments \{ let path = path\.join\(name\); "
-         r"self\.add_symbol\( path\.join\(\"start\"\), self\.symbol\(None, segment\.range\(\)\.start as i64, SymbolType::Constant\), \)\?; "
-         r"self\.add_symbol\( path\.join\(\"end\"\), self\.symbol\(None, segment\.range\(\)\.end as i64, SymbolType::Constant\), \)\?; \}", ap,
+         # C06: either `?` or `if let Err(e) = .. { errors.extend(e); }` (a clash with a symbol of the program is reported, the segments are kept)
+         r"(?:if let Err\(e\) = )?self\.add_symbol\( path\.join\(\"start\"\), self\.symbol\(None, segment\.range\(\)\.start as i64, SymbolType::Constant\), \)(?:\?;| \{ errors\.extend\(e\); \}) "
+         r"(?:if let Err\(e\) = )?self\.add_symbol\( path\.join\(\"end\"\), self\.symbol\(None, segment\.range\(\)\.end as i64, SymbolType::Constant\), \)(?:\?;| \{ errors\.extend\(e\); \}) \}", ap,
          "register_all_segment_symbols")
 
     # ---- add_symbol
     a = norm(between(cg, r"fn add_symbol<I: Into<IdentifierPath>>\(", r"\n    pub fn get_evaluator\(", "add_symbol"))
     need(r"if existing\.ty != symbol\.ty \|\| existing\.read_only\(\) != symbol\.read_only\(\) \|\| "
          r"\(existing\.pass_idx == symbol\.pass_idx && existing\.data != symbol\.data && existing\.read_only\(\)\) \{ "
-         r"let span = symbol\.span\.expect\(\"no span provided\"\); return Err\(", a, "add_symbol: redefinition test")
+         r"(?:let span = symbol\.span\.expect\(\"no span provided\"\); return Err\(|let mut diag = Diagnostic::error\(\) \.with_message\(format!\(\"cannot redefine symbol: \{\}\", &path\)\); "
+         r"if let Some\(span\) = symbol\.span\.or\(existing\.span\) \{ diag = diag\.with_labels\(vec!\[span\.to_label\(\)\]\); \} return Err\()", a, "add_symbol: redefinition test")   # C06
     need(r"if existing\.data != symbol\.data \{ maybe_require_new_pass = true; \} \*existing = symbol; \} "
          r"None => \{ self\.symbols\.update_data\(symbol_nx, symbol\); maybe_require_new_pass = true; \}", a, "add_symbol: changed value")
     need(r"None => \{ let \(parent, id\) = path\.clone\(\)\.split\(\); let parent_nx = self\.symbols\.ensure_index\(self\.symbols\.root, &parent\); "
